@@ -66,6 +66,10 @@ func c04(r *core.Run) {
 				plans = append(plans, &fault{Kind: "callback-fail", Gate: g})
 			}
 			plans = append(plans, &fault{Kind: "exception", Gate: g})
+			if strings.HasPrefix(g, "hook:sender:") || strings.HasPrefix(g, "write:") || strings.HasPrefix(g, "cb:input") {
+				// the sender waits at the gate until the receiver has handled the exception
+				plans = append(plans, &fault{Kind: "exception", Gate: g, Hold: true})
+			}
 			if strings.HasPrefix(g, "srv:before:") {
 				plans = append(plans, &fault{Kind: "unknown-packet", Gate: g, K: int64(len(plans))})
 				for u := range unexpectedPackets {
